@@ -209,14 +209,27 @@ def build_state(a, st):
     import zlib
     has_children = {r['parent'] for r in rps.values() if r.get('parent')}
     moved = [u for u in rps if rps[u].get('parent') and u in has_children and zlib.crc32(u.encode()) % 3 == 0]
+    # ... and some ROOTS with grandchildren are first created below another root and un-parented at the end (a moved subtree
+    # of depth two: the grandchildren must follow as well)
+    def depth_below(u):
+        kids = [k for k, r in rps.items() if r.get('parent') == u]
+        return 0 if not kids else 1 + max(depth_below(k) for k in kids)
+    roots = sorted(u for u in rps if not rps[u].get('parent'))
+    lodged = {}
+    for u in roots:
+        others = [x for x in roots if x != u and x not in lodged]
+        if others and depth_below(u) >= 2 and zlib.crc32(u.encode()) % 2 == 0:
+            lodged[u] = others[0]
     while pending:
         progressed = False
         for u in list(pending):
             p = rps[u].get('parent')
-            if p is None or p in done or u in moved:
+            if (p is None and (u not in lodged or lodged[u] in done)) or p in done or u in moved:
                 b = {'name': rps[u]['name'], 'uuid': u}
                 if p is not None and u not in moved:
                     b['parent_provider_uuid'] = p
+                if u in lodged:
+                    b['parent_provider_uuid'] = lodged[u]
                 _ok(a.call('POST', '/resource_providers', b), 'provider')
                 done[u] = 0
                 pending.remove(u)
@@ -230,6 +243,9 @@ def build_state(a, st):
             u = rps[u]['parent']
             n += 1
         return n
+    for u in sorted(lodged):
+        _ok(a.call('PUT', '/resource_providers/%s' % u, {'name': rps[u]['name'], 'parent_provider_uuid': None}, version='1.37'),
+            'un-parent')
     for u in sorted(moved, key=depth, reverse=True):
         _ok(a.call('PUT', '/resource_providers/%s' % u, {'name': rps[u]['name'], 'parent_provider_uuid': rps[u]['parent']},
                    version='1.37'), 'move')
